@@ -693,7 +693,10 @@ class Seq(Base):
         if fk:
             self.cx.fs.disarm()
         h['ri'], h['off'] = ri, off
-        h['after255'] = (got[-1]['t'] == 's' and len(got[-1]['v']) == 255)
+        # (the marker stays on the file number once a 255-character item has been read through it: the
+        # engine is a separator behind from then on, and values that still equal the reference - a number 0
+        # read from the leftover quote, a quote read by INPUT$ - do so by coincidence)
+        h['after255'] = h['after255'] or any(g['t'] == 's' and len(g['v']) == 255 for g in got)
         self._check_eof(n, h)
 
     def op_rdline(self, op):
@@ -732,7 +735,7 @@ class Seq(Base):
         if fk:
             self.cx.fs.disarm()
         h['ri'], h['off'] = h['ri'] + 1, 0
-        h['after255'] = (len(rem) == 255)
+        h['after255'] = h['after255'] or (len(rem) == 255)
         self._check_eof(n, h)
 
     def op_rdchars(self, op):
